@@ -69,6 +69,17 @@ def spell_int(ty, value, style, env, tag):
         if n < 0 or n > hi:
             return lit_int(value)
         return bnot(lit(str(n))) if style == "notlit" else bnot(const("C%s" % tag, n))
+    if style == "userassoc":
+        # a user type's associated constant that merely shares its name with the inner type's limit
+        nm = "Lim%s" % tag.capitalize()
+        which = "MAX" if value >= 0 else "MIN"
+        env.append(("%s::%s" % (nm, which), ty, value, "pub struct %s; impl %s { pub const %s: %s = %s; }" % (nm, nm, which, ty, rust_int(ty, value))))
+        return k("%s::%s" % (nm, which))
+    if style == "usermod":
+        nm = "lim_%s" % tag
+        which = "MIN" if value <= 0 else "MAX"
+        env.append(("%s::%s" % (nm, which), ty, value, "pub mod %s { pub const %s: %s = %s; }" % (nm, which, ty, rust_int(ty, value))))
+        return k("%s::%s" % (nm, which))
     if style == "paren":
         return par(lit_int(value))
     if style == "parenconst":
@@ -125,7 +136,7 @@ def lit_int(value):
 
 
 INT_STYLES = ["lit", "const", "negconst", "paren", "arith", "shift", "minmax", "call", "lit_us",
-              "parenconst", "mulsub", "bitor", "notlit", "notconst"]
+              "parenconst", "mulsub", "bitor", "notlit", "notconst", "userassoc", "usermod"]
 
 
 # ---------------------------------------------------------------- integer guards
@@ -398,7 +409,7 @@ def float_specials(is64):
         sp = [0x0, 0x80000000, 0x1, 0x80000001, 0x007FFFFF, 0x00800000, 0x80800000, 0x3F800000,
               0xBF800000, 0x7F7FFFFF, 0xFF7FFFFF, 0x7F800000, 0xFF800000, 0x7FC00000, 0xFFC00000,
               0x7F800001, 0x7FFFFFFF, 0xFF800001, 0x40E00000, 0x42C80000, 0x42C80001, 0xBF000000,
-              0x3F000000, 0x42800000]
+              0x3F000000, 0x42800000, 0x15AE43FD, 0x95AE43FD, 0x3DCCCCCD, 0x3EAAAAAB]
     return sp
 
 
@@ -735,6 +746,19 @@ def gen_default_edge_decls():
                 d.default_arg = ("f", fbits(dt, is64))
                 decls.append(d)
                 n += 1
+    for ty in ("f32", "f64"):
+        for dt in ("-0.0", "0.0", "-1.5"):
+            for extra in ([], [block("sanitize", [[tid("with"), EQ, tfn(2, "p", "s")]])]):
+                d = Decl("de%d" % n, ty, attr(extra + [[tid("default"), EQ, tx(spell_float(ty, dt, "lit", [], "d"))],
+                                                       derive_block(["Debug", "Clone", "PartialEq", "Default", "From"])]), tags={"guard", "float", "default_edge"})
+                d.default_arg = ("f", fbits(dt, FLOAT_TYPES[ty]))
+                decls.append(d)
+                n += 1
+    for ty, dv in (("i32", 0), ("u8", 0), ("i64", -1)):
+        d = Decl("de%d" % n, ty, attr([[tid("default"), EQ, tx(lit_int(dv))], derive_block(["Debug", "Clone", "PartialEq", "Default", "From"])]), tags={"guard", "int", "default_edge"})
+        d.default_arg = ("i", dv)
+        decls.append(d)
+        n += 1
     for mn, dv in ((2, "a"), (2, "ab"), (2, "abc")):
         d = Decl("de%d" % n, "String", attr([block("validate", [[tid("len_char_min"), EQ, tx(lit(str(mn)))]]), [tid("default"), EQ, tx(estr(dv))],
                                              derive_block(["Debug", "Clone", "PartialEq", "Default", "TryFrom"])]), tags={"guard", "str", "default_edge"})
@@ -906,7 +930,7 @@ def gen_arb_floats(rng, tier, start=0):
 ARB_STR_SANS = [[], ["trim"], ["lowercase"], ["uppercase"], ["trim", "lowercase"], ["uppercase", "trim"]]
 ARB_STR_VALS = [["min"], ["max"], ["min", "max"], ["not_empty"], ["not_empty", "min"], ["min", "not_empty"],
                 ["not_empty", "max"], ["max", "min"], ["min0", "not_empty"], []]
-ARB_STR_BOUNDS = [(0, 2), (1, 1), (2, 5), (3, 3), (1, 4)]
+ARB_STR_BOUNDS = [(0, 2), (1, 1), (2, 5), (3, 3), (1, 4), (65, 70), (100, 100)]
 
 
 def gen_arb_strs(rng, tier, start=0):
